@@ -8,7 +8,7 @@ from vlib.gen import make_r_fmt, make_r_sub, make_r_dyn, r_fold, r_dynw
 
 QB = "src/backend/query_builder.rs"
 P = ["C08"]
-OPAQUE = ["ValueTuple", "FunctionCall", "OnConflictTarget", "ColumnRef", "TableRef", "JoinType", "JoinOn", "ConditionHolder", "SimpleExpr", "DynIden",
+OPAQUE = ["ValueTuple", "FunctionCall", "OnConflictTarget", "ColumnRef", "JoinType", "JoinOn", "ConditionHolder", "SimpleExpr", "DynIden",
           "Value"]
 r_fmt = make_r_fmt(wmap=lambda w: w, merge=True)
 
@@ -198,6 +198,7 @@ def build(u, variant=None):
     for n in OPAQUE:
         u.emit("#[verifier::external_body]\npub struct %s { _opaque: u8 }\n" % n, kind="spec", key="R-opaque:" + n, props=P)
     u.type_item("src/query/select.rs", "enum", "UnionType", props=P, keep_derive=("Clone", "Copy"))
+    u.type_item("src/types.rs", "enum", "TableRef", props=P)
     u.type_item("src/query/select.rs", "enum", "LockType", props=P, keep_derive=("Clone", "Copy"))
     u.type_item("src/query/select.rs", "enum", "LockBehavior", props=P, keep_derive=("Clone", "Copy"))
     u.type_item("src/query/select.rs", "struct", "LockClause", props=P, rules=[make_r_sub("R-vis", r"pub\(crate\) ", "pub ", min_count=0)])
@@ -488,6 +489,27 @@ pub open spec fn select_expr_events(x: SelectExpr) -> Seq<Ev> {
     u.emit("pub struct SqliteQueryBuilderJ;\nimpl SqliteQueryBuilderJ {\n")
     u.fn("src/backend/sqlite/query.rs", "impl QueryBuilder for SqliteQueryBuilder", "prepare_select_lock", props=P, key="SqliteQueryBuilder::prepare_select_lock", vpath="SqliteQueryBuilderJ::prepare_select_lock",
          rules=[r_dynw, make_r_sub("R-slice", r"_sql: &mut W", "sql: &mut W")], spec="ensures\n    // SQLite has no row locks: nothing is written\n    final(sql).tr() == old(sql).tr(),")
+    u.emit("}\n")
+    # ---- table references: a plain / qualified / aliased name (unit ident), or a parenthesised sub-query / VALUES list / a function call, each with its alias
+    u.spec('''
+pub open spec fn table_ref_events(t: TableRef) -> Seq<Ev> {
+    match t {
+        TableRef::SubQuery(q, a) => seq![lit("("), Ev::Select(q), lit(") AS "), Ev::Iden(a)],
+        TableRef::ValuesList(v, a) => seq![lit("("), Ev::ValuesList(v), lit(") AS "), Ev::Iden(a)],
+        TableRef::FunctionCall(f, a) => seq![Ev::FuncName(f), Ev::FuncArgs(f), lit(" AS "), Ev::Iden(a)],
+        _ => seq![Ev::TRefIden(t)],
+    }
+}
+''', "render::table-ref-spec", props=P)
+    u.emit("pub struct DfltT;\nimpl DfltT {\n")
+    u.spec(abstract("prepare_select_statement", "x: &SelectStatement", "Ev::Select(*x)") + abstract("prepare_values_list", "x: &Vec<ValueTuple>", "Ev::ValuesList(*x)")
+           + abstract("prepare_function_name_of", "x: &FunctionCall", "Ev::FuncName(*x)") + abstract("prepare_function_arguments", "x: &FunctionCall", "Ev::FuncArgs(*x)")
+           + abstract("prepare_table_ref_iden", "x: &TableRef", "Ev::TRefIden(*x)") + abstract("prepare_iden", "x: &DynIden", "Ev::Iden(*x)"), "render::abstract-sub-renderers(table ref)", props=P)
+    u.fn(QB, "trait QueryBuilder", "prepare_table_ref", props=P, key="QueryBuilder::prepare_table_ref", vpath="DfltT::prepare_table_ref",
+         rules=[r_dynw, make_r_sub("R-opaque", r"\balias\.prepare\(sql, self\.quote\(\)\)", "self.prepare_iden(alias, sql)", min_count=3),
+                make_r_sub("R-path", r"self\.prepare_function_name\(&func\.func, sql\)", "self.prepare_function_name_of(func, sql)"), r_fmt],
+         spec="ensures\n    // ( sub-query | VALUES list ) AS alias, function(args) AS alias, or the (qualified, aliased) table name\n    final(sql).tr() == old(sql).tr() + table_ref_events(*table_ref),",
+         proofs={"body-start": "let ghost t0 = sql.tr(); let ghost tr_ = *table_ref;", "body-end": "proof { assert(sql.tr() =~= t0 + table_ref_events(tr_)); }"})
     u.emit("}\n")
     # ---- dialect-specific SELECT constructs: each only in its own dialect, in that dialect's form ---------------------------------------
     u.spec('''
